@@ -21,7 +21,8 @@ def check(ctx, world):
         "group.random_scalar(entropy_f) - not reduced, masked, hashed or mixed with anything - and serialize() persists that same "
         "atom. I3: Base is group.Base and Blind is params.M / N / S = group.arbitrary_element(seed). With C13 (scalarmult is "
         "n-fold addition), C18 (Base has order q, Blind in the subgroup) x -> x*Base + c is a bijection from [0,q) onto the "
-        "subgroup for every fixed c, which is the statement; uniformity of x itself is C11.")
+        "subgroup for every fixed c, which is the statement. I4 (C11's N2, N6, R1, R2, R4, R5 re-run): the sampler really ranges "
+        "over all of [0,q) - random_scalar is unbiased_randrange(0, q, f) resp. be2int(f(64)) mod L - so no subgroup element is excluded.")
     ctx.min_obligations = 15
     ev = session.new_ev(world)
     for cname in session.PUBLIC_CLASSES:
@@ -78,3 +79,7 @@ def check(ctx, world):
                     ok = len(persisted) == 1 and persisted[0] == mk_app("hexs", (mk_app(".scalar_to_bytes", (G, x)),))
                     ctx.ob("I2-persisted", cname, ok, "serialize() persists exactly the scalar used in the message" if ok else
                            "serialize() does not persist the sampled scalar as hexlify(scalar_to_bytes(x))", so.site)
+
+    # I4: "as the secret scalar ranges over [0,q)": the sampler's range is all of [0,q) in both groups
+    from .common import include
+    include(ctx, world, "c11", "I4", keep=lambda o: o.rule in ("N2", "N6", "R1", "R2", "R5", "R4"))
